@@ -306,6 +306,7 @@ def task_history(rng, s, tables, model, build, wrong_num=2):
     shadow = []   # (clock, thread, (taskid, bodyid) of the running body or None, thread state)
     s.task_shadow = shadow
     s.task_info = tasks
+    s.task_types = types
     s.task_stacks = stacks
     s.task_tstate = tstate
     for pr in procs:
